@@ -116,6 +116,55 @@ pub fn random_histories(seed: u64, n: usize, max_ops: u64, mode: Mode, big: bool
     c.out
 }
 
+/// Repeated crashes (C02 "the recovered core stays fully usable"): a history, a crash inside a mutating
+/// call (preferring the windows inside a flush: before the header write, between header write and
+/// truncate), recovery, then a further call — make_read_only, append, batch or clear — with every one of
+/// *its* crash points reopened, and possibly a third round.
+pub fn double_crash_histories(seed: u64, n: usize) -> RunOut {
+    let mut r = Rng::new(seed);
+    let mut c = Ctx { sim: Sim::new(), out: RunOut { ops: vec![], outs: vec![], stats: BTreeMap::new(), failures: vec![], samples: vec![] }, seen: HashSet::new(), hist_digest: String::new() };
+    for _ in 0..n {
+        c.run(format!("new W {SEED_HEX}"));
+        let pre = r.below(9);
+        for _ in 0..pre {
+            let len = c.sim.h["W"].oracle.len;
+            let line = random_log_op(&mut r, len, false, false);
+            c.run(line);
+        }
+        let rounds = r.range(1, 3);
+        for round in 0..rounds {
+            // a mutating call and a crash inside it
+            let len = c.sim.h["W"].oracle.len;
+            let line = match r.below(10) { 0..=5 => format!("append W {}", hex(&gen_block(&mut r, false))), 6..=7 if len > 0 => { let s = r.below(len); format!("clear W {s} {}", r.range(s + 1, len + 1)) }, _ => "batch W 61,6263,~".replace("~", "") };
+            c.run(line);
+            let j: Vec<Op> = c.sim.h["W"].last_journal.clone();
+            if j.is_empty() { continue; }
+            let hdr = j.iter().position(|op| matches!(op, Op::Write(3, o, _) if *o < 8192));
+            let k = match (hdr, r.below(10)) {
+                (Some(h), 0..=4) => h + 1,            // header written, entries not yet truncated
+                (Some(h), 5..=6) => h,                // side stores flushed, header not yet written
+                _ => r.below(j.len() as u64 + 1) as usize,
+            };
+            *c.out.stats.entry(if hdr.map(|h| h + 1) == Some(k) { "crash2_after_header".to_string() } else if hdr == Some(k) { "crash2_before_header".into() } else { "crash2_elsewhere".into() }).or_insert(0) += 1;
+            c.run(format!("crashgo W {k} 0"));
+            c.run("probe W".into());
+            // the next call on the recovered core, with all of its crash points
+            let len = c.sim.h["W"].oracle.len;
+            let ro = round + 1 == rounds && r.chance(1, 2);
+            let line = if ro { "ro W".to_string() } else { match r.below(10) { 0..=4 => format!("append W {}", hex(&gen_block(&mut r, false))), 5..=7 if len > 0 => { let s = r.below(len); format!("clear W {s} {}", r.range(s + 1, len + 1)) }, _ => "batch W 7a,7a7a".to_string() } };
+            *c.out.stats.entry(if ro { "crash2_then_ro".to_string() } else { "crash2_then_write".into() }).or_insert(0) += 1;
+            c.run(line);
+            c.crash_points("W", Mode::Crash, &mut r, 0);
+            c.run("probe W".into());
+            if ro { break; }
+        }
+        c.run("reopen W".into());
+        c.run("probe W".into());
+        c.end_history();
+    }
+    c.out
+}
+
 const ALPHABET: [&str; 10] = ["append W -", "append W 61", "append W 626364", "batch W ~", "batch W 78,797a", "clear W 0 1", "clear W LAST LAST3", "clear W MID MID1", "reopen W", "get W LEN"];
 
 /// Bounded-exhaustive: every sequence of `depth` symbols of the alphabet, full probe after each step.
